@@ -172,6 +172,7 @@ func runC16Program(ctx context.Context, w *ATWorld, db *sql.DB, sc *ATSchema, ta
 }
 
 func runC16(c *Ctx) {
+	runC16Mixed(c)
 	w := GetATWorld()
 	xa := w.OpenXA()
 	rng := NewRng(c.Seed)
